@@ -1,5 +1,5 @@
 (* C19 — the shared-denial bypass flag through request trees of any shape and depth. *)
-From Sdns Require Import Common.Base Gen.C19 C19.Model.
+From Sdns Require Import Common.Base Gen.C19 C19.Model C19.Proofs_edns.
 Open Scope N_scope.
 
 Section rtree_induction.
@@ -45,4 +45,52 @@ Proof.
   rewrite HB. constructor.
   - unfold denied. cbn. rewrite !orb_true_r. cbn. rewrite !andb_false_r. auto.
   - induction ch as [|x r IHr]; cbn; [constructor|]. apply Forall_app. split; [apply bypass_is_inherited|exact IHr].
+Qed.
+
+(* ------------------------------------------------------------------ the byte ladder *)
+(* whatever the policy (also none at all): a wire-born query that carried a subnet option or CD gets
+   nothing from the shared denial state on the byte ladder *)
+Lemma wire_ladder_isolated rd has_ecs cd : has_ecs || cd = true -> denied (wire_ladder_perm rd has_ecs cd).
+Proof. unfold denied, wire_ladder_perm. cbn. destruct rd, has_ecs, cd; cbn; intros H; try discriminate; auto. Qed.
+
+(* what the root of a fresh tree may do in the decoded body, when the query carried no subnet option:
+   nothing is forwarded, no request scope is derived, so only CD decides *)
+Lemma root_perm_plain pol cd remote opts res_cd ch :
+  match opts with Some l => has_ecs l | None => false end = false ->
+  exists p rest, tree_perms pol (mk_dctx false false) (RNode cd remote opts res_cd ch) = p :: rest /\
+                 dp_cut p = negb cd.
+Proof.
+  intros H. cbn [tree_perms]. unfold node_perm. cbn [dc_marker dc_bypass].
+  assert (forwarded pol (addr_from_slice_unmap remote) opts = []) as HF.
+  { unfold forwarded. destruct opts as [l|]; [|reflexivity]. apply new_opts_no_client_ecs. exact H. }
+  rewrite HF, H. cbn [has_ecs existsb].
+  assert (request_scope pol (addr_from_slice_unmap remote) (Some []) = None) as HR.
+  { unfold request_scope. destruct (negb (allows pol (addr_from_slice_unmap remote))); reflexivity. }
+  rewrite HR. eexists. eexists. split; [reflexivity|]. cbn. destruct cd; reflexivity.
+Qed.
+
+(* the byte ladder never allows more than the decoded body of the same call would: serving a
+   wire-born query changes nothing about who may consume or create shared denials *)
+Lemma wire_ladder_adds_nothing pol t : tree_perms_wire pol true t = tree_perms pol (mk_dctx false false) t.
+Proof.
+  destruct t as [cd remote opts res_cd ch]. unfold tree_perms_wire.
+  destruct (match opts with Some l => has_ecs l | None => false end) eqn:ER.
+  - destruct (tree_perms pol (mk_dctx false false) (RNode cd remote opts res_cd ch)) as [|p rest]; [reflexivity|].
+    unfold wire_ladder_perm, dperm_or. cbn. destruct p; reflexivity.
+  - destruct (root_perm_plain pol cd remote opts res_cd ch ER) as [p [rest [HP HC]]]. rewrite HP. clear HP.
+    destruct p as [c pr cr]. cbn [dp_cut] in HC. subst c.
+    unfold wire_ladder_perm, dperm_or. destruct cd; reflexivity.
+Qed.
+
+Lemma isolated_wire_tree_denied pol rd t : root_isolated t = true -> Forall denied (tree_perms_wire pol rd t).
+Proof.
+  intros H. pose proof (isolated_tree_denied pol t (mk_dctx false false) H) as HD.
+  destruct t as [cd remote opts res_cd ch]. unfold tree_perms_wire.
+  destruct (tree_perms pol (mk_dctx false false) (RNode cd remote opts res_cd ch)) as [|p rest]; [constructor|].
+  inversion HD; subst. constructor; [|assumption].
+  cbn [root_isolated] in H.
+  pose proof (wire_ladder_isolated rd (match opts with Some l => has_ecs l | None => false end) cd) as HW.
+  rewrite orb_comm in H. specialize (HW H).
+  destruct H2 as [A [B C]]. destruct HW as [A' [B' C']]. unfold denied, dperm_or.
+  cbn [dp_cut dp_proof dp_create]. rewrite A, B, C, A', B', C'. auto.
 Qed.
